@@ -756,6 +756,15 @@ def cond_eval(e, env):
     """Evaluate a branch condition of should_overwrite_with under an abstract environment
     env = {age_rel: 'lt'|'eq'|'gt' (new vs old; the counter wraps, so both orders occur), depth_rel: 'lt'|'eq'|'gt' (new vs old), new_exact: bool, old_exact: bool}.
     Returns True/False, or None when the condition is not one of the recognised comparisons."""
+    d0 = deep_strip(e)
+    if isinstance(d0, tuple) and d0 and d0[0] == "call" and isinstance(d0[1], str) and d0[1].split("::")[-1] in ("is_none", "is_some") and "Option" in d0[1] and d0[2]:
+        # presence of the stored / the new entry's best move
+        x0 = deep_strip(d0[2][0])
+        if isinstance(x0, tuple) and x0[0] == "field" and x0[2] == "best_move" and isinstance(x0[1], tuple) and x0[1][0] == "arg":
+            has = env.get("old_move" if x0[1][1] == 1 else "new_move")
+            if has is None:
+                return None
+            return has if d0[1].endswith("is_some") else not has
     co = cmp_op(e)
     if co is None:
         return None
@@ -853,8 +862,12 @@ def rule_pref(fx, rep):
 
     table = {}
     for ar, dr, ne, oe in itertools.product(["lt", "eq", "gt"], ["lt", "eq", "gt"], [False, True], [False, True]):
-        env = {"age_rel": ar, "depth_rel": dr, "new_exact": ne, "old_exact": oe}
-        table[(ar, dr, ne, oe)] = run_abstract(env)
+        # also over the presence of a best move in either entry (an exact tablebase draw is stored without one): the verdict is
+        # the worst one - a clause must hold whichever entry carries a move
+        rs = set()
+        for om, nm in itertools.product([False, True], repeat=2):
+            rs.add(run_abstract({"age_rel": ar, "depth_rel": dr, "new_exact": ne, "old_exact": oe, "old_move": om, "new_move": nm}))
+        table[(ar, dr, ne, oe)] = "?" if "?" in rs else (next(iter(rs)) if len(rs) == 1 else "depends on which entry has a move")
     n = len(table)
     rep.sample({"rule": "C19-PREF", "decision_table": {f"age={k[0]},depth={k[1]},new_exact={k[2]},old_exact={k[3]}": r for k, r in table.items()}})
     if any(r == "?" for r in table.values()):
@@ -884,6 +897,8 @@ def rule_pref(fx, rep):
 TTF = "src/engine/transposition_table.rs"
 STT = "src/engine/search/transposition.rs"
 MUTANTS = [
+    {"name": "an entry without a best move always gives way to one that has a move (seed C19-7a)", "expect": "C19-PREF/age=eq",
+     "edits": [(STT, "        // Don't overwrite exact nodes\n        self.bound != NodeBound::Exact", "        if self.best_move.is_none() && new.best_move.is_some() {\n            return true;\n        }\n\n        // Don't overwrite exact nodes\n        self.bound != NodeBound::Exact")]},
     {"name": "hashfull sampled from the first thousand slots (seed C19-6b)", "expect": "C19-FILLIND/formula",
      "edits": [("src/engine/transposition_table.rs", "        let decimal = self.occupied as f32 / self.data.len() as f32;\n        let permille = decimal * 1000.0;\n        permille as usize", "        self.data.iter().take(1000).filter(|slot| slot.is_some()).count()")]},
     {"name": "combinator-form probe without the key filter", "expect": "C19-KEY",
